@@ -297,10 +297,14 @@ class HybridClass(metaclass=MetaHybridClass):
         defaults = {}
         for field in obj._XoStruct._fields:
             try:
-                defaults[obj._rename.get(field.name, field.name)] = (
-                    field.get_default()
-                )
-            except (TypeError, ValueError):
+                default = field.get_default()
+                # compare in the form in which attribute values are read
+                if hasattr(default, "to_nplike"):
+                    default = default.to_nplike()
+                elif hasattr(default, "to_str"):
+                    default = default.to_str()
+                defaults[obj._rename.get(field.name, field.name)] = default
+            except (TypeError, ValueError, NotImplementedError):
                 # The above can fail with different error types
                 # if a field type is dynamic.
                 pass
